@@ -398,16 +398,88 @@ def rule_append_cut(ctx) -> None:
         chk.decide(cut and fwd and typ, "C01.cut-what-you-append", f"{MIX}::{cn}.sign", "signature over image.export() is appended; revert removes cert_block.signature_size bytes", f"forward {fwd} (signed `{arg}`), revert cut {cut}, type guard {typ}", "", A.loc(MIX, sg.node))
     # HMAC / key store window
     fz = ctx.own(MIX, "Mbi_ExportMixinHmacKeyStoreFinalize", "finalize")
-    rv = [s for s in A.body_of(fz.node) if isinstance(s, ast.If) and norm(s.test) == "revert"]
-    txt = norm(rv[0]) if rv else ""
-    ok = "end_of_hmac_keystore = self.HMAC_OFFSET + self.HMAC_SIZE" in txt and "if self.ivt_table.get_key_store_presented(raw_image):" in txt and "end_of_hmac_keystore += KeyStore.KEY_STORE_SIZE" in txt \
-        and "image.binary = raw_image[:self.HMAC_OFFSET] + raw_image[end_of_hmac_keystore:]" in txt
-    hv = A.single_def(fz.node, "hmac_value")
-    ok = ok and hv is not None and norm(hv) == "self.compute_hmac(raw_image[:self.HMAC_OFFSET])"
-    ins = [c for c in A.calls_in(fz.node, "append_image") if "hmac_value" in norm(c)]
-    ks = [c for c in A.calls_in(fz.node, "append_image") if "self.key_store.export()" in norm(c)]
-    ok = ok and len(ins) == 2 and len(ks) == 2 and all(k.lineno > i.lineno for i, k in zip(sorted(ins, key=lambda c: c.lineno), sorted(ks, key=lambda c: c.lineno)))
-    chk.decide(ok, "C01.cut-what-you-append", fz.qual, "HMAC (and key store) are inserted at HMAC_OFFSET and removed from [HMAC_OFFSET : HMAC_OFFSET + HMAC_SIZE (+ KEY_STORE_SIZE when flagged)]", txt[:160], "", A.loc(MIX, fz.node))
+    # finalize evaluated on models of an image tree (methods of the mixin are stepped into): forward inserts HMAC (+ key store) at
+    # HMAC_OFFSET - between two sub-images or by splitting the one that spans it -, revert cuts exactly that window out again
+    from ..engines import ordereval as _oe
+    Obj = _oe.Obj
+    fzc = ctx.cls(MIX, "Mbi_ExportMixinHmacKeyStoreFinalize")
+    HM, KS = b"\xAA" * 32, b"\xBB" * 1424
+    sym_map = {"KeyStore.KEY_STORE_SIZE": 1424}
+
+    def img(name, binary=None, subs=(), offset=0):
+        o = Obj(_bi=True, name=name, binary=binary, sub_images=tuple(subs), offset=offset)
+        return o
+
+    def flat(o) -> bytes:
+        out = bytearray(o.__dict__["binary"] or b"")
+        for s_ in o.__dict__["sub_images"]:
+            d = flat(s_)
+            off = s_.__dict__["offset"]
+            if len(out) < off + len(d):
+                out.extend(bytes(off + len(d) - len(out)))
+            out[off:off + len(d)] = d
+        return bytes(out)
+
+    def cv_fz(c: ast.Call, ev):
+        f = norm(c.func)
+        if f == "BinaryImage":
+            kw = {k.arg: ev.ev(k.value) for k in c.keywords}
+            if c.args:
+                kw["name"] = ev.ev(c.args[0])
+            return img(kw.get("name"), kw.get("binary"))
+        if isinstance(c.func, ast.Attribute) and c.func.attr in ("append_image", "export") or f == "len":
+            if f == "len" and len(c.args) == 1:
+                try:
+                    o = ev.ev(c.args[0])
+                except _oe.Unsupported:
+                    return _oe.NOT_MODELLED
+                return len(flat(o)) if isinstance(o, Obj) and "_bi" in o.__dict__ else _oe.NOT_MODELLED
+            if f == "len":
+                return _oe.NOT_MODELLED
+            o = ev.ev(c.func.value)
+            if isinstance(o, Obj) and "_bi" in o.__dict__:
+                if c.func.attr == "export":
+                    return flat(o)
+                x = ev.ev(c.args[0])
+                x.__dict__["offset"] = len(flat(o))
+                o.__dict__["sub_images"] = o.__dict__["sub_images"] + (x,)
+                return None
+            if isinstance(o, Obj) and "_ks" in o.__dict__ and c.func.attr == "export":
+                return KS
+        if f == "self.compute_hmac" and len(c.args) == 1:
+            return HM if ev.ev(c.args[0]) == RAW[:64] else b"\x00" * 32
+        if f == "self.ivt_table.get_key_store_presented" and len(c.args) == 1:
+            return ev.ev(ast.parse("self._ks_flag", mode="eval").body)
+        return _oe.NOT_MODELLED
+    cv = ctx.model_calls(cv_fz, sym_map)
+    RAW = bytes((i * 7 + 1) & 0xFF for i in range(200))
+    layouts = {"boundary at 64": [(0, 64), (64, 200)], "one image spanning 64": [(0, 200)], "spanning in the second": [(0, 16), (16, 200)]}
+    probs, n_models = [], 0
+    for lname, cuts in layouts.items():
+        for has_ks in (False, True):
+            def mk():
+                return img("app", None, [img(f"p{i}", RAW[a_:b_], (), a_) for i, (a_, b_) in enumerate(cuts)])
+            me = Obj(_cls=fzc, HMAC_OFFSET=64, HMAC_SIZE=32, key_store=Obj(_ks=True) if has_ks else None, _ks_flag=has_ks)
+            try:
+                out = _oe.Evaluator({"self": me, "image": mk(), "revert": False}, ctx.fold_sym(fz, sym_map), opaque_return=False, call_value=cv).run(A.body_of(fz.node))
+            except _oe.Unsupported as ex:
+                raise AnalysisError(f"C01.cut-what-you-append: finalize left the fragment: {ex}")
+            n_models += 1
+            want_fwd = RAW[:64] + HM + (KS if has_ks else b"") + RAW[64:]
+            got = flat(out.value) if out.kind == "return" and isinstance(out.value, Obj) else None
+            if got != want_fwd:
+                probs.append(f"{lname}, key store {has_ks}: forward result {'has ' + str(len(got)) + ' bytes and differs' if got is not None else out.kind}, expected image[:64] | HMAC | {'key store | ' if has_ks else ''}image[64:]")
+                continue
+            back = img("final", want_fwd)
+            try:
+                out2 = _oe.Evaluator({"self": me, "image": back, "revert": True}, ctx.fold_sym(fz, sym_map), opaque_return=False, call_value=cv).run(A.body_of(fz.node))
+            except _oe.Unsupported as ex:
+                raise AnalysisError(f"C01.cut-what-you-append: finalize (revert) left the fragment: {ex}")
+            n_models += 1
+            got2 = flat(out2.value) if out2.kind == "return" and isinstance(out2.value, Obj) else None
+            if got2 != RAW:
+                probs.append(f"{lname}, key store {has_ks}: revert does not give the original image back ({'length ' + str(len(got2)) if got2 is not None else out2.kind})")
+    chk.decide(not probs, "C01.cut-what-you-append", fz.qual, f"HMAC (and key store) are inserted at HMAC_OFFSET and removed from [HMAC_OFFSET : HMAC_OFFSET + HMAC_SIZE (+ KEY_STORE_SIZE when flagged)] ({n_models} models)", "; ".join(probs[:2]), "", A.loc(MIX, fz.node))
     hm = ctx.cls(MIX, "Mbi_MixinHmac")
     chk.decide(prog.fold(hm.consts.get("HMAC_OFFSET"), hm.module, hm) == 64 and prog.fold(hm.consts.get("HMAC_SIZE"), hm.module, hm) == 32, "C01.cut-what-you-append", f"{MIX}::Mbi_MixinHmac constants", "HMAC_OFFSET 64, HMAC_SIZE 32", "", "", A.loc(MIX, hm.node))
     # manifest digest
